@@ -58,6 +58,28 @@ def eval_case(cid: str, F: list, D: list, perms: list, dtype=np.int64, user_lb=N
     return rec
 
 
+def big_case(cid: str, n: int, rng: random.Random) -> dict:
+    """n facilities with entries 0..3: all values fit native integers (see Trace_QAP!BigN)."""
+    m = mods()
+    F = [[rng.randint(0, 3) if rng.random() < 0.5 else 0 for _ in range(n)] for _ in range(n)]
+    D = [[rng.randint(0, 3) for _ in range(n)] for _ in range(n)]
+    inst = m["Instance"](np.array(D, dtype=np.int64), np.array(F, dtype=np.int64))
+    obj = m["Obj"](inst)
+    perms = []
+    for v in range(2):
+        p = list(range(n))
+        if v == 0:
+            rng.shuffle(p)
+        else:
+            p.reverse()
+        perms.append({"p": [q + 1 for q in p], "val": small(int(obj.evaluate(np.array(p, dtype=np.int64))))})
+    return {"id": cid, "kind": "big", "n": n, "F": F, "D": D,
+            "sF": [[small(int(v)) for v in r] for r in inst.flows.tolist()],
+            "sD": [[small(int(v)) for v in r] for r in inst.distances.tolist()],
+            "lb": small(int(obj.lower_bound())), "ub": small(int(obj.upper_bound())), "perms": perms,
+            "dtype": str(inst.flows.dtype)}
+
+
 def text_lines(n: int, F: list, D: list, breaks: set, blanks=frozenset()) -> list:
     toks = [n] + [v for r in F for v in r] + [v for r in D for v in r]
     lines, cur = [], []
@@ -248,6 +270,11 @@ def run(prop: str, tier: str, seed: int) -> int:
         # the shipped instance itself: its bounds include the published optimum / best lower bound
         cases.append(eval_case(f"shipped-{nm}", F, D, perms, inst=inst))
         rep.family("shipped-matrices", len(perms), len(perms))
+    # many facilities (index storage beyond the 8-bit ranges; the shipped instances go up to 256)
+    for n in ([129, 257] if tier == "quick" else [127, 128, 129, 255, 256, 257]):
+        cases.append(big_case(f"many-facilities-{n}", n, rng))
+        rep.family("many-facilities(127..257)", 2, 2)
+        rep.nontrivial += 2
     for c in cases:
         if "neg_bounds" in c:
             rep.violations.append(core.Verdict(c["id"], "declared-bound-negative", c))
